@@ -101,6 +101,13 @@ def cases(tier, seed):
     # (g) rings nested through islands
     specs.append({"id": "g:nested", "exprs": progs.nested_exprs()})
     specs.append({"id": "g:nested-laws", "exprs": progs.nested_laws(), "deg": True})
+    # curved composites and depth-2 curved programs
+    cq = [(["CQ", "ringc"], progs.L("Q.ftri")), (["CQ", "ringc"], progs.L("Q.fbar")), (["CQ", "twoc"], progs.L("Q.c16")), (["CQ", "xringc"], progs.L("Q.fsq")), (["CQ", "ringc"], progs.L("Q.c5"))]
+    for x, y in cq if tier == "thorough" else cq[:1]:
+        specs.append({"id": "e3:%s,%s" % (al.expr_id(x), al.expr_id(y)), "exprs": [[o, x, y] for o in progs.OPS4] + [["|", y, x], ["-", y, x]], "cost": 25})
+    c16, c16b, c8, ftri, fsq, lens = (progs.L("Q." + n) for n in ("c16", "c16b", "c8", "ftri", "fsq", "lens"))
+    d2c = [["&", ["|", c16, c16b], ftri], ["-", ["|", c16, c16b], fsq], ["|", ["&", c16, c16b], lens], ["^", ["-", c8, fsq], ftri], ["-", c16, ["-", c8, fsq]], ["&", ["~", ["&", c16, c16b]], c8]]
+    specs.append({"id": "e4:depth2-curved", "exprs": d2c if tier == "thorough" else d2c[:2], "cost": 40})
     # curved pairs whose intersection is a two-segment lens / cap (one arc of each boundary)
     for a, b in (("c16", "c16near"), ("lens", "lens2"), ("c4", "fcap"), ("scub", "ftri"), ("scub", "c8")):
         x, y = progs.L("Q." + a), progs.L("Q." + b)
